@@ -82,6 +82,25 @@ func Load(spec LoadSpec) (*Program, error) {
 	for _, sp := range prog.AllPackages() {
 		p.Pkgs[sp.Pkg.Path()] = sp
 	}
+	p.BlankImports = map[*ssa.Package][]*ssa.Package{}
+	packages.Visit(pkgs, nil, func(pk *packages.Package) {
+		sp := p.Pkgs[pk.PkgPath]
+		if sp == nil {
+			return
+		}
+		for _, f := range pk.Syntax {
+			for _, im := range f.Imports {
+				if im.Name != nil && im.Name.Name == "_" {
+					path := strings.Trim(im.Path.Value, "\"")
+					if ip, ok := pk.Imports[path]; ok {
+						if bp := p.Pkgs[ip.PkgPath]; bp != nil {
+							p.BlankImports[sp] = append(p.BlankImports[sp], bp)
+						}
+					}
+				}
+			}
+		}
+	})
 	rt := p.Pkgs["runtime"]
 	if rt == nil {
 		return nil, fmt.Errorf("runtime package not loaded")
